@@ -148,3 +148,25 @@ def j2action(j) -> Action:
     if t == "block":
         return Action(ActionType.BlockIP, {"source_host": n2ip(j["src"]), "target_host": n2ip(j["tgt"]), "blocked_host": n2ip(j["blocked"])})
     raise ValueError(t)
+
+
+# ---------------------------------------------------------------- re-labelling: tables of a world and their images
+def tables(w):
+    return {"hostname": {str(k): v for k, v in w._ip_to_hostname.items()},
+            "nets": {str(k): sorted(str(x) for x in v) for k, v in w._networks.items()},
+            "fw": {str(k): sorted(str(x) for x in v) for k, v in w._firewall.items()},
+            "fw_orig": {str(k): sorted(str(x) for x in v) for k, v in w._firewall_original.items()},
+            "services": {k: sorted(map(repr, v)) for k, v in w._services.items()},
+            "data": {k: sorted(map(repr, v)) for k, v in w._data.items()},
+            "start": sorted(str(x) for x in w.hosts_to_start), "blocks": {str(k): sorted(map(str, v)) for k, v in w._fw_blocks.items()}}
+
+
+def push(t0, sig, tau):
+    """initial tables pushed through the maps (sig: ip str -> ip str, tau: net str -> net str)"""
+    return {"hostname": {sig[k]: v for k, v in t0["hostname"].items()},
+            "nets": {tau[k]: sorted(sig[x] for x in v) for k, v in t0["nets"].items()},
+            "fw": {sig[k]: sorted(sig[x] for x in v) for k, v in t0["fw"].items()},
+            "fw_orig": {sig[k]: sorted(sig[x] for x in v) for k, v in t0["fw_orig"].items()},
+            "services": t0["services"], "data": t0["data"], "start": sorted(sig[x] for x in t0["start"]), "blocks": {}}
+
+
